@@ -130,7 +130,9 @@ def check(rules, types, start, text, asmodel, buffer=False, model=None, deco=Non
                         '(pos after leading whitespace, endpos at the end of the match)', observed=key, reference_invocations=cands[:8]), info
         if what == 'dict' and not asmodel:
             mine = tu.canon(obj)
-            if not ref.flags and not any(tu.canon(v) == mine for v in trace[key]):
+            # (values are C01's subject; where a rule's value is an "open" list the known finding F-C01-a - such a value is spliced into its
+            # caller - would be re-reported here as a value difference: not judged, as in C06/C09/C11)
+            if not ref.flags and not ref.openlist_values and not any(tu.canon(v) == mine for v in trace[key]):
                 return dict(bucket='dict:value', oracle='the rule invocation named by parseinfo returned this value',
                             observed=mine, reference=[tu.canon(v) for v in trace[key]][:3], key=key), info
         # (U1: a rule with names whose taken option bound none of them — whether it returns the AST or the value is not documented)
